@@ -147,6 +147,12 @@ func c07History(ap corpusApp, cfgi int, inputs []string, c *mc.Ctx) (sig, msg st
 		twins = append(twins, c07Twin{"persisted-mem-with-flush", s, cl})
 	}
 	{
+		// a gateway that serves every request with one call of engine.Loop (initial input, nothing to read)
+		s, cl := openBackend(ap.Build(), lsOpts{Mode: "persisted", Backend: "mem", Cfg: cfg})
+		s.ViaLoop = true
+		twins = append(twins, c07Twin{"persisted-mem-via-engine-loop", s, cl})
+	}
+	{
 		// and one engine WITH a persister kept for the whole session (the engine.Loop arrangement): like the
 		// long-lived engine it is not continued after the session ended
 		s, cl := openBackend(ap.Build(), lsOpts{Mode: "long-lived-persister", Backend: "mem", Cfg: cfg})
@@ -183,6 +189,21 @@ func c07History(ap corpusApp, cfgi int, inputs []string, c *mc.Ctx) (sig, msg st
 			}
 			if !llAlive && baseName == "" {
 				base, baseName = r, t.name
+				continue
+			}
+			if t.s.ViaLoop {
+				// Loop reports neither continue/stop nor which of Exec and Flush failed; a failed request shows nothing
+				bErr := base.ExecErr != "" || base.FlushErr != ""
+				if (r.ExecErr != "") != bErr || (!bErr && r.Out != base.Out) {
+					sg := "loop-gateway-differs"
+					if passedError {
+						sg += "-after-error"
+					}
+					return sg, fmt.Sprintf("%s: %s gives out=%q err=%q; %s gives %s", where, t.name, short(r.Out), r.ExecErr, baseName, short(base.Client())), reqs
+				}
+				if bErr {
+					twins[ti].s = nil // what Loop leaves behind after an error is its own business
+				}
 				continue
 			}
 			if r.Client() != base.Client() {
